@@ -35,6 +35,14 @@ pub fn minimize(
         attempts: 0,
         accepted: 0,
     };
+    // Plans with files of megabytes cost a second per execution: the number of attempts is cut so
+    // that minimising stays around two minutes. (The only use of a real clock in the simulator
+    // besides the watchdog: it bounds how far the plan is shrunk, never what a plan does - the
+    // shrunk plan is a replay file like any other and is confirmed in a fresh process.)
+    let t0 = std::time::Instant::now();
+    let _ = fails_same(scen, plan, oracle, known);
+    let per_attempt = t0.elapsed().as_secs_f64().max(1e-4);
+    let budget = budget.min(((120.0 / per_attempt) as u64).max(15));
     let try_plan = |cand: Plan, best: &mut Plan, st: &mut MinStats| -> bool {
         if st.attempts >= budget || cand == *best {
             return false;
@@ -95,6 +103,10 @@ pub fn minimize(
                     },
                     Fault {
                         hard_kind: 0,
+                        ..f.clone()
+                    },
+                    Fault {
+                        wrap: 0,
                         ..f.clone()
                     },
                 ];
